@@ -147,6 +147,10 @@ class Inliner:
 
     # ------------------------------------------------------------------ index
     def _index(self):
+        # per-round memo tables (dropped for a function the moment its body is replaced, see run())
+        self._elig: Dict[int, bool] = {}
+        self._host_stores: Dict[int, Set[str]] = {}
+        self._host_closures: Dict[int, Dict[str, list]] = {}
         self.mod_funcs: Dict[Tuple[str, str], ast.FunctionDef] = {}
         self.methods: Dict[str, List[Tuple[str, str, ast.FunctionDef]]] = {}     # name -> [(mod, class, def)]
         self.class_bases: Dict[str, List[str]] = {}
@@ -172,6 +176,12 @@ class Inliner:
     def _eligible(self, fn: ast.FunctionDef, is_method: bool) -> bool:
         if not _is_private(fn.name):
             return False
+        k = id(fn)
+        if k not in self._elig:
+            self._elig[k] = self._eligible_uncached(fn)
+        return self._elig[k]
+
+    def _eligible_uncached(self, fn: ast.FunctionDef) -> bool:
         decos = [ast.unparse(d) for d in fn.decorator_list]
         if any(d not in ("staticmethod",) for d in decos):
             return False
@@ -203,10 +213,14 @@ class Inliner:
             fn = self.mod_funcs.get((mod, f.id))
             if fn is None or fn is host:
                 return None
-            # shadowed by a local / parameter of the host?
-            for n in _own_nodes(host):
-                if isinstance(n, ast.Name) and n.id == f.id and isinstance(n.ctx, ast.Store):
-                    return None
+            # shadowed by a local / parameter of the host?  (stores added by expansions carry a `__helper` suffix and can
+            # never spell a module-level function, so the set is computed once per host and round)
+            stores = self._host_stores.get(id(host))
+            if stores is None:
+                stores = self._host_stores[id(host)] = {n.id for n in _own_nodes(host)
+                                                        if isinstance(n, ast.Name) and isinstance(n.ctx, ast.Store)}
+            if f.id in stores:
+                return None
             if f.id in [a.arg for a in host.args.args + host.args.kwonlyargs]:
                 return None
             return (fn, None) if self._eligible(fn, False) else None
@@ -333,7 +347,13 @@ class Inliner:
                 r = owner._resolve(c, mod, cls, host)
                 if r is None and isinstance(c.func, ast.Name):
                     # a closure of the host that is a single `return <expr>`: `def is_public(name): return a or name in b`
-                    local = [n for n in ast.walk(host) if isinstance(n, ast.FunctionDef) and n is not host and n.name == c.func.id]
+                    closures = owner._host_closures.get(id(host))
+                    if closures is None:
+                        closures = owner._host_closures[id(host)] = {}
+                        for n in ast.walk(host):
+                            if isinstance(n, ast.FunctionDef) and n is not host:
+                                closures.setdefault(n.name, []).append(n)
+                    local = closures.get(c.func.id, [])
                     if len(local) == 1 and not local[0].decorator_list and not local[0].args.vararg and not local[0].args.kwarg \
                             and not any(isinstance(a, ast.Starred) for a in c.args) and all(k.arg for k in c.keywords):
                         r = (local[0], None)
@@ -507,6 +527,7 @@ class Inliner:
                         host.body = nb
                         changed_fns.add(id(host))
                         any_change = True
+                        self._elig.pop(id(host), None)
             if not any_change:
                 break
         # renumber the functions that received inlined code
